@@ -7,6 +7,7 @@ from __future__ import annotations
 
 import ast
 
+from . import known_imports
 from . import terms as T
 from .core import AnalysisError
 from .model import NotConst, RegexConst, TypeMarker, dotted, FuncRef
@@ -51,7 +52,8 @@ class FCtx(object):
             self_consts = (fref.node.args.args[0].arg, class_const)
         self.ex = T.extract(fref.node, inliner=self._make_inliner(model, fref), const_resolver=resolver, self_consts=self_consts,
                             attr_renames=dict(getattr(model, "attr_renames", None) or {},
-                                              **dict(("<global>" + k, v) for k, v in (getattr(model, "func_renames", None) or {}).items())) or None)
+                                              **dict(("<global>" + k, v) for k, v in (getattr(model, "func_renames", None) or {}).items())) or None,
+                            gspell=known_imports.speller(fref.module, model.modules), sigs=self._make_sigs(model, fref))
         self.events = self.ex.events
         self.inlined = list(self.ex.inlined)
         # spelling-independent forms (string building, sort keys) for every term the rules look at
@@ -512,6 +514,62 @@ class FCtx(object):
                 ev.guards = tuple((T.subst(g[0], fn), g[1]) for g in ev.guards)
                 ev.raw_guards = tuple((T.subst(g[0], fn), g[1]) for g in ev.raw_guards)
                 ev.loops = tuple((l[0], T.subst(l[1], fn)) for l in ev.loops)
+
+    @staticmethod
+    def _make_sigs(model, fref):
+        """callee term -> positional parameter names of the package function/method/class it names (None when it is not one, or
+        cannot be told): ``self.m(...)`` through the class of the analysed method, module-level names through the imports, any
+        other ``x.m(...)`` only when every definition of ``m`` in the package has the same parameters and no built-in container,
+        string or parser has a method of that name"""
+        def params_of(fn, drop_first):
+            a = fn.args
+            if a.posonlyargs:
+                return None
+            ps = [x.arg for x in a.args]
+            return tuple(ps[1:] if drop_first else ps)
+        by_name = {}
+        for c in model.classes.values():
+            for n, fn in c.methods.items():
+                if n in c.properties:
+                    continue
+                by_name.setdefault(n, set()).add(params_of(fn, n not in c.staticmethods))
+        foreign = set()
+        import configparser
+        import io
+        for ty in (dict, list, set, str, tuple, frozenset, configparser.ConfigParser, bytes, io.TextIOWrapper):
+            foreign |= set(dir(ty))
+        selfname = fref.node.args.args[0].arg if fref.cls is not None and fref.node.args.args \
+            and fref.node.name not in fref.cls.staticmethods else None
+
+        def sigs(func):
+            if func[0] == "attr":
+                name = func[2]
+                if selfname is not None and func[1] == ("param", selfname):
+                    lk = fref.cls.lookup(name)
+                    if lk is None or name in lk[0].properties:
+                        return None
+                    return params_of(lk[1], name not in lk[0].staticmethods)
+                if name in foreign or name.startswith("__"):
+                    return None
+                alts = by_name.get(name)
+                if alts and len(alts) == 1:
+                    return list(alts)[0]
+                return None
+            if func[0] == "global":
+                try:
+                    r = model.resolve_name(fref.module, func[1])
+                except Exception:
+                    return None
+                if r is None:
+                    return None
+                if r[0] == "func":
+                    f_ = r[1]
+                    return params_of(f_.node, f_.cls is not None and f_.node.name not in f_.cls.staticmethods)
+                if r[0] == "class":
+                    lk = r[1].lookup("__init__")
+                    return params_of(lk[1], True) if lk else None
+            return None
+        return sigs
 
     @staticmethod
     def _make_inliner(model, fref):
@@ -1372,8 +1430,10 @@ def mentions_version(t):
 def active_at(ev, version):
     """False if some version gate guarding the event does not hold at ``version``"""
     for g, pol in ev.guards:
-        v = gate_term_value(g, version)
-        if v is not None and v != pol:
+        if g[0] == "exc":
+            continue
+        v = simplify_at_version(g, version)
+        if v[0] == "const" and bool(v[1]) != pol:
             return False
     return True
 
@@ -1387,6 +1447,51 @@ def pick_at_version(t, version):
                 return T.subst(x[2] if v else x[3], pick)
         return None
     return T.subst(t, pick)
+
+
+def simplify_at_version(t, version):
+    """a condition with its version comparisons evaluated at ``version`` (truth value only)"""
+    v = gate_term_value(t, version)
+    if v is not None:
+        return ("const", bool(v))
+    if t[0] == "unary" and t[1] == "not":
+        x = simplify_at_version(t[2], version)
+        return ("const", not x[1]) if x[0] == "const" else ("unary", "not", x)
+    if t[0] == "boolop":
+        absorbing = t[1] == "or"
+        items = []
+        for x in t[2]:
+            x = simplify_at_version(x, version)
+            if x[0] == "const":
+                if bool(x[1]) == absorbing:
+                    return ("const", absorbing)
+                continue
+            items.append(x)
+        if not items:
+            return ("const", not absorbing)
+        return items[0] if len(items) == 1 else ("boolop", t[1], tuple(items))
+    if t[0] in ("ifexp", "gate"):
+        c = simplify_at_version(t[1], version)
+        if c[0] == "const":
+            return simplify_at_version(t[2] if c[1] else t[3], version)
+    return t
+
+
+def guards_at_version(ev, version):
+    """the conditions of an event for a document of format ``version``: version comparisons evaluated, conditions that then hold
+    trivially dropped; None when the event cannot happen at that version"""
+    out = []
+    for g in ev.guards:
+        if g[0][0] == "exc":
+            continue
+        t = simplify_at_version(g[0], version)
+        if t[0] == "const":
+            if bool(t[1]) != g[1]:
+                return None
+            continue
+        t, pol = T.strip_not(t, g[1])
+        out.append((t, pol))
+    return out
 
 
 def non_gate_guards(ev):
@@ -1737,6 +1842,15 @@ def canon_guard_pair(g):
     return t, pol
 
 
+def arg_of(call, name, pos):
+    """the argument a call passes for parameter ``name`` (position ``pos`` among the positional ones, self not counted), by
+    keyword or by position; None when it passes none"""
+    kws = dict(call[3])
+    if name in kws:
+        return kws[name]
+    return call[2][pos] if len(call[2]) > pos and call[2][pos][0] != "starred" else None
+
+
 def own_guards(cx, ev, kinds=("raise", "return", "continue", "break")):
     """guards of an event that are real conditions of it, i.e. not merely the negation of an earlier early exit
     (``if bad: raise`` / ``if done: return`` / ``continue``) in the same block.  ``kinds`` restricts which early exits count
@@ -1752,6 +1866,14 @@ def own_guards(cx, ev, kinds=("raise", "return", "continue", "break")):
             if e.seq < ev.seq and len(e.guards) > i and tuple(e.guards[:i]) == tuple(ev.guards[:i]) and e.guards[i] == neg:
                 early = True
                 break
+        if not early and not g[1] and g[0][0] == "boolop" and g[0][1] == "and":
+            # the exit sits deeper (``if a: if b: raise`` / the last else of a ladder): the conjunction of all its conditions
+            want = frozenset(canon_guard(a) for a in flat_atoms([(g[0], True)]))
+            for e in exits:
+                if e.seq < ev.seq and len(e.guards) > i and tuple(e.guards[:i]) == tuple(ev.guards[:i]) \
+                        and frozenset(canon_guard(a) for a in flat_atoms(x for x in e.guards[i:] if x[0][0] != "exc")) == want:
+                    early = True
+                    break
         if not early:
             out.append(g)
     return out
